@@ -689,3 +689,75 @@ TECHNIQUE.update({
     'C07': 'static analysis: interpretation of the completion guard for all message classes + who-may-call/who-may-write rules',
     'C14': 'static analysis: effect analysis of root-level writers + single-serializer rule (envelope clause only)',
 })
+
+
+def prop_C09(repo, tier):
+    from . import rules_shape
+    from .analysis import coll_results
+    res = CheckResult('C09', tier)
+    res.rules = {
+        'FOLD-LOOP': 'merge() iterates the collection\'s own reader list, in order, without re-ordering, slicing or filtering',
+        'NO-EARLY-EXIT': 'the merge loop has no break/return: every message is applied',
+        'FRESH-READ': 'the object merged in an iteration was restored in that iteration (never a cached or reused object); MosReader.mos_object stores nothing',
+        'APPLY-VIA-ADD': 'each message is applied through RunningOrder.__add__ (+=), so the completion guard covers everything after the roDelete',
+        'HANDLER-COVERS': 'the step is inside a try whose handler covers MosMergeError',
+        'STRICT-RERAISE': 'with strict=True the first MosMergeError (incl. MosCompletedMergeError) propagates unchanged, no warning is emitted, and nothing else can escape',
+        'ONE-WARNING': 'with strict=False every failing message is skipped with exactly one MosMergeNonStrictWarning and the loop continues; no exception escapes',
+        'DEFAULT-STRICT': 'strict is keyword-only and defaults to True',
+    }
+    prog = program(repo)
+    for r in coll_results(repo):
+        if not r['ok']:
+            res.error(r['error'])
+            continue
+        strict = r['strict']
+        for note, n in r['notes'].items():
+            res.extra.setdefault('imprecision_notes', {})[note] = n
+        for func, cons in r['sites'].get('loop', []):
+            res.add('FOLD-LOOP', func, cons[:120], True)
+            res.add('NO-EARLY-EXIT', func, cons[:120], True)
+        for func, cons in r['sites'].get('restore', []):
+            res.add('FRESH-READ', func, cons, True)
+        for func, cons in r['sites'].get('dispatch', []):
+            res.add('APPLY-VIA-ADD', func, cons, True)
+        for f in r['findings']:
+            res.add(f['rule'], f['func'], f['construct'][:160], False, f['detail'], f['file'], f['line'], f['witness'])
+        outs = r['outcomes']
+        if strict:
+            raises = [o for o in outs if o['result'].startswith('raise')]
+            ok = bool(raises) and all(o['result'] in ('raise MosMergeError', 'raise MosCompletedMergeError') and not o['warned'] for o in raises) \
+                and all(not o['warned'] for o in outs)
+            res.add('STRICT-RERAISE', 'MosCollection.merge', 'outcomes with strict=True', ok,
+                    '' if ok else f'strict outcomes: {sorted({(o["result"], o["warned"]) for o in outs})}')
+            ok2 = any(o['result'] == 'return' and o['merged'] >= 1 for o in outs) and all(o.get('ro_kept', True) for o in outs)
+            res.add('FOLD-LOOP', 'MosCollection.merge', 'the running order after the loop is the one the steps returned', ok2,
+                    '' if ok2 else 'merge() does not end with the folded running order in self._ro')
+        else:
+            bad = [o for o in outs if o['result'].startswith('raise') or o['pending']]
+            ok = not bad and any(o['warned'] for o in outs)
+            res.add('ONE-WARNING', 'MosCollection.merge', 'outcomes with strict=False', ok,
+                    '' if ok else f'non-strict outcomes: {sorted({(o["result"], o["pending"], o["warned"]) for o in outs})}')
+            after = [o for o in outs if 'merge-failed' in o['events'] and o['events'].index('merge-failed') < len(o['events']) - 2]
+            res.add('ONE-WARNING', 'MosCollection.merge', 'messages after a failed one are still applied', bool(after),
+                    '' if after else 'no path applies a message after a failed one')
+        sig = r['signature']
+        ok = sig.get('strict') == 'True' and 'strict' not in r['positional']
+        res.add('DEFAULT-STRICT', 'MosCollection.merge', 'def merge(self, *, strict=True)', ok, '' if ok else f'signature: positional={r["positional"]} keyword-only={sig}')
+    rules_shape.handler_covers(res, prog)
+    rules_shape.fresh_read(res, prog)
+    res.floors = {'FOLD-LOOP': 2, 'FRESH-READ': 2, 'APPLY-VIA-ADD': 1, 'STRICT-RERAISE': 1, 'ONE-WARNING': 2}
+    res.explanation = (
+        'Static analysis: MosCollection.merge is interpreted (strict=True and strict=False) over a symbolic collection whose reader list '
+        'has unknown length and whose restored messages are opaque objects that either merge or raise MosMergeError; the real '
+        'RunningOrder.__add__ (with its completion guard) and MosReader.mos_object are interpreted. The loop is iterated to a fix-point, '
+        'so "any number and placement of failing messages" is covered. Decided: the loop is the fold over the reader list in order with '
+        'fresh objects applied through +=, strict re-raises the first merge error with no warning, non-strict downgrades each failure to '
+        'exactly one MosMergeNonStrictWarning and continues. NOT decided: equality of serialisations with a hand fold (follows from the '
+        'fold shape only because + is deterministic, which C13 supports).')
+    res.assumptions = ['a message merge either returns the running order or raises MosMergeError (C12 decides that nothing else escapes)']
+    res.trusted_base = TRUSTED
+    return res
+
+
+PROPS['C09'] = prop_C09
+TECHNIQUE['C09'] = 'static analysis: abstract interpretation of the collection merge loop over a symbolic reader list (collectionflow)'
